@@ -69,6 +69,8 @@ type Conn struct {
 	failAt    int64 // fail the k-th write (1-based); 0 = never
 	wcount    int64
 	wdelay    int64 // nanoseconds each accepted write takes (a slow reader on the other side)
+	partialAt int64 // the k-th write takes only partialN bytes, then runs into its deadline (0 = never)
+	partialN  int64
 	WriteErr  error
 	notify    chan struct{} // optional, non-blocking tick per write (nil in -race runs)
 
@@ -182,6 +184,27 @@ func (c *Conn) Write(p []byte) (int, error) {
 	if fa := atomic.LoadInt64(&c.failAt); fa != 0 && k >= fa {
 		return 0, c.WriteErr
 	}
+	if pa := atomic.LoadInt64(&c.partialAt); pa != 0 && k == pa {
+		// the peer's window fills up in the middle of this write: the first bytes are taken, the rest is not,
+		// the write deadline expires; later writes are accepted again (the peer resumed reading)
+		n := int(atomic.LoadInt64(&c.partialN))
+		if n > len(p) {
+			n = len(p)
+		}
+		c.wmu.Lock()
+		c.writes = append(c.writes, WriteRec{T: time.Now(), Data: append([]byte(nil), p[:n]...)})
+		c.wmu.Unlock()
+		var wait <-chan time.Time
+		if !c.wdeadline.IsZero() {
+			wait = time.After(time.Until(c.wdeadline))
+		}
+		select {
+		case <-wait:
+			return n, timeoutErr{}
+		case <-c.closed:
+			return n, net.ErrClosed
+		}
+	}
 	if WriteMode(atomic.LoadInt32(&c.wmode)) == WriteStall {
 		var wait <-chan time.Time
 		if !c.wdeadline.IsZero() {
@@ -218,6 +241,12 @@ func (c *Conn) SetWriteMode(m WriteMode) { atomic.StoreInt32(&c.wmode, int32(m))
 
 // FailWritesFrom makes the k-th and later writes fail (counted from the first write).
 func (c *Conn) FailWritesFrom(k int) { atomic.StoreInt64(&c.failAt, int64(k)) }
+
+// PartialStallAt makes the k-th write (1-based) accept only its first n bytes and then time out at its deadline.
+func (c *Conn) PartialStallAt(k, n int) {
+	atomic.StoreInt64(&c.partialN, int64(n))
+	atomic.StoreInt64(&c.partialAt, int64(k))
+}
 
 // FailNextWrite makes the next write fail.
 func (c *Conn) FailNextWrite() { atomic.StoreInt64(&c.failAt, atomic.LoadInt64(&c.wcount)+1) }
